@@ -285,6 +285,34 @@ def obim(ctx, fx):
                    "push", fnkey=f["key"])
         ctx.ob("C08.obim.scanstart-covers-push", f["qn"], not det, "; ".join(det), fn.loc(),
                "push%s" % ("/barrier" if barrier_flag(f) and "Adaptive" not in f["qn"] else ""), fnkey=f["key"])
+    # slowPop side of the invariant (all BSP instantiations; barrier mode simply does not rely on it)
+    sps = [f for f in insts(fx, OBIM + "::slowPop") + insts(fx, W + "AdaptiveOrderedByIntegerMetric::slowPop") if bsp_flag(f)]
+    ctx.floor("BSP OBIM/AdaptiveOBIM slowPop instantiations", len(sps), 3)
+    for f in sps:
+        fn = ctx.fn(f)
+        al = fn.aliases()
+
+        def fld2(t):
+            x = S(t, al)
+            return "scan" if x.endswith(".scanStart") else "cur" if x.endswith(".curIndex") else None
+
+        def on_event(st, pos, e):
+            cur, scan = st
+            tgt = val = None
+            if e.get("k") == "assign" and e.get("op") == "=":
+                tgt, val = fld2(e.get("lhs")), S(e.get("rhs"), al)
+            elif e.get("k") == "call" and e.get("op") == "=" and e.get("a"):
+                tgt, val = fld2(e.get("recv") or {}), S(e["a"][0], al)
+            if tgt == "cur":
+                cur = val
+            elif tgt == "scan":
+                scan = val
+            return (cur, scan)
+        at = fn.flow(("old", "old"), on_event)
+        bad = [st for st in at.get("exit", ()) if st[0] != st[1]]
+        ctx.ob("C08.obim.scanstart-invariant", f["qn"], not bad,
+               "exit reachable with curIndex := %s but scanStart := %s" % (bad[0][0], bad[0][1]) if bad else "", fn.loc(),
+               "slowPop", fnkey=f["key"])
     pops = [f for f in insts(fx, OBIM + "::pop") if barrier_flag(f)]
     pushes = [f for f in insts(fx, OBIM + "::push") if barrier_flag(f) and len(f["params"]) == 1]
     empt = [f for f in insts(fx, OBIM + "::empty")]
